@@ -321,6 +321,37 @@ if PROP == "C16":
     except Exception as e:
         leg.violation("outermost-first-after-glue-module", f"extract_outermost as first extraction after a glue module appeared raised {e!r}")
     sys.modules.pop("zz_c16_glue", None); gg.close()
+    # (h) an unwrap hook hands back READY-MADE Frame objects (hand-built ones, the frames of a nested extract_child): they were not
+    #     found by looking inside the coroutine that waits on the item, so they carry no origin of its
+    class ReadyFrames:
+        def __init__(s, how): s.how = how
+        def __await__(s): return s
+        def __iter__(s): return s
+        def __next__(s): return "parked"
+    def _mk_rf():
+        return sys._getframe(0)
+    RF_A, RF_B = _mk_rf(), _mk_rf()
+    def rf_gen():
+        yield 1
+    RF_G = rf_gen(); next(RF_G)
+    @stackscope.unwrap_stackitem.register(ReadyFrames)
+    def _uw_ready(x):
+        if x.how == "hand-built":
+            return [stackscope.Frame(pyframe=RF_A), stackscope.Frame(pyframe=RF_B)]
+        return stackscope.extract_child(RF_G, for_task=False).frames
+    for how in ("hand-built", "extract_child"):
+        async def rf_waiter(job): await job
+        async def rf_task(job): await rf_waiter(job)
+        co_rf = rf_task(ReadyFrames(how)); co_rf.send(None)
+        key = ("hook-returns-ready-made-frames", how)
+        leg.case(key, True)
+        st = stackscope.extract(co_rf)
+        if st.error is not None or [f.funcname for f in st.frames][:2] != ["rf_task", "rf_waiter"] or len(st.frames) < 3:
+            leg.violation(key, f"frames {[f.funcname for f in st.frames]} error={st.error!r}")
+        for f in st.frames:
+            if f.origin is not None and stackscope.extract_outermost(f.origin).pyframe is not f.pyframe:
+                leg.violation(key, f"frame {f.funcname} handed back by a hook has origin {f.origin!r}, whose outermost frame is another one")
+        co_rf.close()
     # (g) no frame at all: extract_outermost raises the RECORDED error if there is one (also for an item that cannot be printed),
     #     a RuntimeError otherwise; extract() of the same item reports the same error
     class Frameless:
